@@ -421,7 +421,7 @@ _t("lgx.relarith", "", "k = 0\nif (isel - (n - 1) > 1 .or. (lp .eqv. isel * 2 < 
 _t("arx.sub", "", "k = (isel - n) - 2\nj = isel - (n - 2)\ni = isel - n - 2\nx = (x - y) - 0.5\ny = x - (y - 0.5)")
 _t("arx.addsub", "", "k = isel - (n + 2)\nj = isel - (n - 2) + (isel - (2 - n))\ni = (isel + n) - (isel - n)")
 _t("arx.div", "", "k = 24 / (n + 1) / 2\nj = 24 / ((n + 1) * 2)\ni = 24 / (n + 1) * 2\nx = x / (2.0 * 4.0)\ny = x / 2.0 * 4.0")
-_t("arx.divdiv", "", "k = 24 / (6 / (n + 1))\nj = (24 / 6) / (n + 1)\ni = isel * ((n + 1) / 2)\nx = x / (y / 2.0 - 8.0)")
+_t("arx.divdiv", "", "k = 24 / (6 / (n + 1))\nj = (24 / 6) / (n + 1)\ni = isel * ((n + 1) / 2)\nx = x / (4.0 / 2.0)\ny = y / 4.0 / 2.0")
 _t("arx.muldiv", "", "k = isel * (n + 1) / 2\nj = (isel * 7) / (n + 1) * 2\ni = isel * (7 / (n + 1)) * 2")
 _t("arx.pow", "", "k = (2 ** n) ** 2\nj = 2 ** (n ** 2)\ni = 2 ** n ** 2")
 _t("arx.powsmall", "", "k = (isel ** 2) ** n\nj = isel ** (2 ** n)\ni = (isel ** n) * 2 - isel ** (n * 2)")
